@@ -1,1 +1,387 @@
-int main(void){return 0;}
+/* cref - independent C reference reader / writer for the pyprobables export formats (property C06).
+ *
+ * Written from the DOCUMENTED layouts, not from the Python sources:
+ *   Bloom filter      : bit array, bit i = bit (i mod 8) of byte (i div 8); footer {uint64 est_elements,
+ *                       uint64 elements_added, float false_positive_rate} (native little endian)
+ *   counting Bloom    : uint32 cells, same footer
+ *   count-min sketch  : int32 bins[depth][width]; footer {uint32 width, uint32 depth, int64 elements_added}
+ *   expanding/rotating: per sub filter {uint64 elements_added, bit array}; footer {uint64 number of filters,
+ *                       uint64 est_elements, uint64 elements_added, float false_positive_rate}
+ *   cuckoo            : capacity x bucket_size uint32 fingerprints (0 = empty); footer {uint32 bucket_size, uint32 max_swaps}
+ *   counting cuckoo   : capacity x bucket_size {uint32 fingerprint, uint32 count}; same footer
+ * geometry   : number_bits = ceil(-n ln(p) / 0.4804530139182), p read as a C float; number_hashes = round(ln2 m / n)
+ * hashing    : FNV-1a 64, offset basis advanced by 31 per hash index; position = hash mod size
+ *
+ * Server mode: one request per line on stdin, one answer line on stdout. Payloads are hex.
+ * Built with -fsanitize=address,undefined so that a layout mistake fails loudly.
+ */
+#include <inttypes.h>
+#include <math.h>
+#include <stdint.h>
+#include <stdio.h>
+#include <stdlib.h>
+#include <string.h>
+
+typedef struct { unsigned char *p; size_t n; } buf_t;
+
+static int hexval(int c) {
+    if (c >= '0' && c <= '9') return c - '0';
+    if (c >= 'a' && c <= 'f') return c - 'a' + 10;
+    if (c >= 'A' && c <= 'F') return c - 'A' + 10;
+    return -1;
+}
+
+static buf_t unhex(const char *s) {
+    buf_t b;
+    size_t len = strlen(s);
+    if (len == 1 && s[0] == '-') { b.p = malloc(1); b.n = 0; return b; } /* "-" = empty */
+    b.n = len / 2;
+    b.p = malloc(b.n ? b.n : 1);
+    for (size_t i = 0; i < b.n; i++) b.p[i] = (unsigned char)(hexval(s[2 * i]) * 16 + hexval(s[2 * i + 1]));
+    return b;
+}
+
+static void puthex(const unsigned char *p, size_t n) {
+    for (size_t i = 0; i < n; i++) printf("%02x", p[i]);
+}
+
+static uint64_t fnv64(const unsigned char *d, size_t n, uint64_t index) {
+    uint64_t h = 14695981039346656037ULL + 31ULL * index;
+    for (size_t i = 0; i < n; i++) { h ^= d[i]; h *= 1099511628211ULL; }
+    return h;
+}
+
+static uint32_t fnv32(const unsigned char *d, size_t n, uint32_t index) {
+    uint32_t h = 0x811C9DC5u + 31u * index;
+    for (size_t i = 0; i < n; i++) { h ^= d[i]; h *= 0x01000193u; }
+    return h;
+}
+
+/* geometry from (n, p); *half is set when ln2*m/n is an exact .5 (C rounds away from zero, Python to even) */
+static void geometry(uint64_t n, float p, uint64_t *m, uint64_t *k, int *half) {
+    double mm = ceil((-(double)n * log((double)p)) / 0.4804530139182);
+    double kk = 0.6931471805599453 * mm / (double)n;
+    *m = (uint64_t)mm;
+    *k = (uint64_t)round(kk);
+    *half = (kk - floor(kk)) == 0.5;
+}
+
+static int64_t floordiv(int64_t a, int64_t b) {
+    int64_t q = a / b;
+    if ((a % b != 0) && ((a < 0) != (b < 0))) q--;
+    return q;
+}
+
+static int cmp64(const void *a, const void *b) {
+    int64_t x = *(const int64_t *)a, y = *(const int64_t *)b;
+    return (x > y) - (x < y);
+}
+
+#define MAXTOK 4096
+static char *tok[MAXTOK];
+static int ntok;
+
+static void split(char *line) {
+    ntok = 0;
+    char *save = NULL;
+    for (char *t = strtok_r(line, " \t\r\n", &save); t && ntok < MAXTOK; t = strtok_r(NULL, " \t\r\n", &save)) tok[ntok++] = t;
+}
+
+/* ---- readers ---- */
+
+static void bloom_check(void) { /* bloom-check EXPORT KEY... -> "m k half : 0/1 ..." */
+    buf_t e = unhex(tok[1]);
+    uint64_t est, added; float fpr;
+    memcpy(&est, e.p + e.n - 20, 8); memcpy(&added, e.p + e.n - 12, 8); memcpy(&fpr, e.p + e.n - 4, 4);
+    uint64_t m, k; int half;
+    geometry(est, fpr, &m, &k, &half);
+    printf("%" PRIu64 " %" PRIu64 " %d %" PRIu64 " %zu :", m, k, half, added, e.n - 20);
+    if ((m + 7) / 8 != e.n - 20) { printf(" LENGTH-MISMATCH\n"); free(e.p); return; }
+    for (int i = 2; i < ntok; i++) {
+        buf_t key = unhex(tok[i]);
+        int present = 1;
+        for (uint64_t j = 0; j < k; j++) {
+            uint64_t pos = fnv64(key.p, key.n, j) % m;
+            if (!(e.p[pos / 8] & (1u << (pos % 8)))) { present = 0; break; }
+        }
+        printf(" %d", present);
+        free(key.p);
+    }
+    printf("\n");
+    free(e.p);
+}
+
+static void cbloom_check(void) { /* cbloom-check EXPORT KEY... -> counts */
+    buf_t e = unhex(tok[1]);
+    uint64_t est, added; float fpr;
+    memcpy(&est, e.p + e.n - 20, 8); memcpy(&added, e.p + e.n - 12, 8); memcpy(&fpr, e.p + e.n - 4, 4);
+    uint64_t m, k; int half;
+    geometry(est, fpr, &m, &k, &half);
+    printf("%" PRIu64 " %" PRIu64 " %d %" PRIu64 " %zu :", m, k, half, added, e.n - 20);
+    if (m * 4 != e.n - 20) { printf(" LENGTH-MISMATCH\n"); free(e.p); return; }
+    for (int i = 2; i < ntok; i++) {
+        buf_t key = unhex(tok[i]);
+        uint32_t lo = UINT32_MAX;
+        for (uint64_t j = 0; j < k; j++) {
+            uint64_t pos = fnv64(key.p, key.n, j) % m;
+            uint32_t c; memcpy(&c, e.p + 4 * pos, 4);
+            if (c < lo) lo = c;
+        }
+        printf(" %" PRIu32, lo);
+        free(key.p);
+    }
+    printf("\n");
+    free(e.p);
+}
+
+static void cms_check(void) { /* cms-check EXPORT KEY... -> "width depth added : min,mean,meanmin ..." */
+    buf_t e = unhex(tok[1]);
+    uint32_t width, depth; int64_t added;
+    memcpy(&width, e.p + e.n - 16, 4); memcpy(&depth, e.p + e.n - 12, 4); memcpy(&added, e.p + e.n - 8, 8);
+    printf("%" PRIu32 " %" PRIu32 " %" PRId64 " :", width, depth, added);
+    if ((size_t)width * depth * 4 != e.n - 16) { printf(" LENGTH-MISMATCH\n"); free(e.p); return; }
+    int64_t *v = malloc(sizeof(int64_t) * (depth ? depth : 1));
+    int64_t *mm = malloc(sizeof(int64_t) * (depth ? depth : 1));
+    for (int i = 2; i < ntok; i++) {
+        buf_t key = unhex(tok[i]);
+        int64_t sum = 0;
+        for (uint32_t r = 0; r < depth; r++) {
+            uint64_t col = fnv64(key.p, key.n, r) % width;
+            int32_t c; memcpy(&c, e.p + 4 * ((size_t)r * width + col), 4);
+            v[r] = c; sum += c;
+        }
+        qsort(v, depth, sizeof(int64_t), cmp64);
+        int64_t mn = v[0];
+        int64_t mean = floordiv(sum, depth);
+        int64_t meanmin;
+        if (width < 2) {
+            printf(" %" PRId64 ",%" PRId64 ",NA", mn, mean);
+        } else {
+            if (v[0] == 0 && v[depth - 1] == 0) meanmin = 0;
+            else {
+                for (uint32_t r = 0; r < depth; r++) mm[r] = v[r] - floordiv(added - v[r], (int64_t)width - 1);
+                qsort(mm, depth, sizeof(int64_t), cmp64);
+                if (depth % 2 == 0) meanmin = floordiv(mm[depth / 2] + mm[depth / 2 - 1], 2);
+                else meanmin = mm[depth / 2];
+            }
+            printf(" %" PRId64 ",%" PRId64 ",%" PRId64, mn, mean, meanmin);
+        }
+        free(key.p);
+    }
+    printf("\n");
+    free(v); free(mm); free(e.p);
+}
+
+static void expanding_check(void) { /* expanding-check EXPORT KEY... -> presence */
+    buf_t e = unhex(tok[1]);
+    uint64_t size, est, added; float fpr;
+    memcpy(&size, e.p + e.n - 28, 8); memcpy(&est, e.p + e.n - 20, 8); memcpy(&added, e.p + e.n - 12, 8); memcpy(&fpr, e.p + e.n - 4, 4);
+    uint64_t m, k; int half;
+    geometry(est, fpr, &m, &k, &half);
+    size_t blen = (m + 7) / 8;
+    printf("%" PRIu64 " %" PRIu64 " %d %" PRIu64 " %" PRIu64 " :", m, k, half, size, added);
+    if (size * (8 + blen) != e.n - 28) { printf(" LENGTH-MISMATCH\n"); free(e.p); return; }
+    for (int i = 2; i < ntok; i++) {
+        buf_t key = unhex(tok[i]);
+        int present = 0;
+        for (uint64_t f = 0; f < size && !present; f++) {
+            const unsigned char *cells = e.p + f * (8 + blen) + 8;
+            int all = 1;
+            for (uint64_t j = 0; j < k; j++) {
+                uint64_t pos = fnv64(key.p, key.n, j) % m;
+                if (!(cells[pos / 8] & (1u << (pos % 8)))) { all = 0; break; }
+            }
+            present = all;
+        }
+        printf(" %d", present);
+        free(key.p);
+    }
+    printf("\n");
+    free(e.p);
+}
+
+static void cuckoo_check(void) { /* cuckoo-check COUNTING FPBITS EXPORT KEY... -> presence / count */
+    int counting = atoi(tok[1]);
+    int fpbits = atoi(tok[2]);
+    buf_t e = unhex(tok[3]);
+    uint32_t bucket_size, max_swaps;
+    memcpy(&bucket_size, e.p + e.n - 8, 4); memcpy(&max_swaps, e.p + e.n - 4, 4);
+    size_t ent = counting ? 8 : 4;
+    uint64_t capacity = (e.n - 8) / ent / bucket_size;
+    printf("%" PRIu64 " %" PRIu32 " %" PRIu32 " :", capacity, bucket_size, max_swaps);
+    for (int i = 4; i < ntok; i++) {
+        buf_t key = unhex(tok[i]);
+        uint64_t h = fnv64(key.p, key.n, 0);
+        uint64_t fp = fpbits >= 64 ? h : (h & ((1ULL << fpbits) - 1));
+        if (fp == 0) fp = 1;
+        char dec[32];
+        int dl = snprintf(dec, sizeof dec, "%" PRIu64, fp);
+        uint64_t idx[2] = { fp % capacity, fnv64((unsigned char *)dec, (size_t)dl, 0) % capacity };
+        uint32_t found = 0;
+        for (int b = 0; b < 2 && !found; b++)
+            for (uint32_t s = 0; s < bucket_size && !found; s++) {
+                uint32_t f, c = 1;
+                memcpy(&f, e.p + (idx[b] * bucket_size + s) * ent, 4);
+                if (counting) memcpy(&c, e.p + (idx[b] * bucket_size + s) * ent + 4, 4);
+                if (f == (uint32_t)fp && f != 0) found = c;
+            }
+        printf(" %" PRIu32, found);
+        free(key.p);
+    }
+    printf("\n");
+    free(e.p);
+}
+
+/* ---- writers ---- */
+
+static void put_bloom_footer(unsigned char *out, uint64_t est, uint64_t added, float fpr) {
+    memcpy(out, &est, 8); memcpy(out + 8, &added, 8); memcpy(out + 16, &fpr, 4);
+}
+
+static void bloom_write(void) { /* bloom-write EST RATE ADDED KEY... */
+    uint64_t est = strtoull(tok[1], NULL, 10);
+    float fpr = (float)strtod(tok[2], NULL);
+    uint64_t added = strtoull(tok[3], NULL, 10);
+    uint64_t m, k; int half;
+    geometry(est, fpr, &m, &k, &half);
+    size_t blen = (m + 7) / 8;
+    unsigned char *out = calloc(blen + 20, 1);
+    for (int i = 4; i < ntok; i++) {
+        buf_t key = unhex(tok[i]);
+        for (uint64_t j = 0; j < k; j++) {
+            uint64_t pos = fnv64(key.p, key.n, j) % m;
+            out[pos / 8] |= (unsigned char)(1u << (pos % 8));
+        }
+        free(key.p);
+    }
+    put_bloom_footer(out + blen, est, added, fpr);
+    printf("%d ", half);
+    puthex(out, blen + 20);
+    printf("\n");
+    free(out);
+}
+
+static void cbloom_write(void) { /* cbloom-write EST RATE ADDED {KEY COUNT}... (net counts, unsaturated) */
+    uint64_t est = strtoull(tok[1], NULL, 10);
+    float fpr = (float)strtod(tok[2], NULL);
+    uint64_t added = strtoull(tok[3], NULL, 10);
+    uint64_t m, k; int half;
+    geometry(est, fpr, &m, &k, &half);
+    uint32_t *cells = calloc(m ? m : 1, 4);
+    for (int i = 4; i + 1 < ntok; i += 2) {
+        buf_t key = unhex(tok[i]);
+        uint32_t cnt = (uint32_t)strtoul(tok[i + 1], NULL, 10);
+        for (uint64_t j = 0; j < k; j++) cells[fnv64(key.p, key.n, j) % m] += cnt; /* once per occurrence */
+        free(key.p);
+    }
+    unsigned char foot[20];
+    put_bloom_footer(foot, est, added, fpr);
+    printf("%d ", half);
+    puthex((unsigned char *)cells, m * 4);
+    puthex(foot, 20);
+    printf("\n");
+    free(cells);
+}
+
+static void cms_write(void) { /* cms-write WIDTH DEPTH ADDED {KEY COUNT}... */
+    uint32_t width = (uint32_t)strtoul(tok[1], NULL, 10), depth = (uint32_t)strtoul(tok[2], NULL, 10);
+    int64_t added = strtoll(tok[3], NULL, 10);
+    int32_t *bins = calloc((size_t)width * depth, 4);
+    for (int i = 4; i + 1 < ntok; i += 2) {
+        buf_t key = unhex(tok[i]);
+        int32_t cnt = (int32_t)strtol(tok[i + 1], NULL, 10);
+        for (uint32_t r = 0; r < depth; r++) bins[(size_t)r * width + fnv64(key.p, key.n, r) % width] += cnt;
+        free(key.p);
+    }
+    unsigned char foot[16];
+    memcpy(foot, &width, 4); memcpy(foot + 4, &depth, 4); memcpy(foot + 8, &added, 8);
+    puthex((unsigned char *)bins, (size_t)width * depth * 4);
+    puthex(foot, 16);
+    printf("\n");
+    free(bins);
+}
+
+static void expanding_write(void) { /* expanding-write EST RATE ADDED NFILTERS {COUNT NKEYS KEY...}... */
+    uint64_t est = strtoull(tok[1], NULL, 10);
+    float fpr = (float)strtod(tok[2], NULL);
+    uint64_t added = strtoull(tok[3], NULL, 10);
+    uint64_t nf = strtoull(tok[4], NULL, 10);
+    uint64_t m, k; int half;
+    geometry(est, fpr, &m, &k, &half);
+    size_t blen = (m + 7) / 8;
+    printf("%d ", half);
+    int t = 5;
+    for (uint64_t f = 0; f < nf; f++) {
+        uint64_t cnt = strtoull(tok[t++], NULL, 10);
+        int nk = atoi(tok[t++]);
+        unsigned char *cells = calloc(blen ? blen : 1, 1);
+        for (int i = 0; i < nk; i++) {
+            buf_t key = unhex(tok[t++]);
+            for (uint64_t j = 0; j < k; j++) {
+                uint64_t pos = fnv64(key.p, key.n, j) % m;
+                cells[pos / 8] |= (unsigned char)(1u << (pos % 8));
+            }
+            free(key.p);
+        }
+        puthex((unsigned char *)&cnt, 8);
+        puthex(cells, blen);
+        free(cells);
+    }
+    unsigned char foot[28];
+    memcpy(foot, &nf, 8); memcpy(foot + 8, &est, 8); memcpy(foot + 16, &added, 8); memcpy(foot + 24, &fpr, 4);
+    puthex(foot, 28);
+    printf("\n");
+}
+
+static void cuckoo_write(void) { /* cuckoo-write COUNTING BUCKET_SIZE MAX_SWAPS NBUCKETS {N {FP [COUNT]}...}... */
+    int counting = atoi(tok[1]);
+    uint32_t bs = (uint32_t)strtoul(tok[2], NULL, 10), sw = (uint32_t)strtoul(tok[3], NULL, 10);
+    uint64_t nb = strtoull(tok[4], NULL, 10);
+    int t = 5;
+    for (uint64_t b = 0; b < nb; b++) {
+        uint32_t n = (uint32_t)strtoul(tok[t++], NULL, 10);
+        for (uint32_t s = 0; s < bs; s++) {
+            uint32_t fp = 0, cnt = 0;
+            if (s < n) {
+                fp = (uint32_t)strtoul(tok[t++], NULL, 10);
+                if (counting) cnt = (uint32_t)strtoul(tok[t++], NULL, 10);
+            }
+            puthex((unsigned char *)&fp, 4);
+            if (counting) puthex((unsigned char *)&cnt, 4);
+        }
+    }
+    puthex((unsigned char *)&bs, 4);
+    puthex((unsigned char *)&sw, 4);
+    printf("\n");
+}
+
+static void fnv_cmd(void) { /* fnv KEY INDEX -> fnv64 fnv32 */
+    buf_t key = unhex(tok[1]);
+    uint64_t idx = strtoull(tok[2], NULL, 10);
+    printf("%" PRIu64 " %" PRIu32 "\n", fnv64(key.p, key.n, idx), fnv32(key.p, key.n, (uint32_t)idx));
+    free(key.p);
+}
+
+int main(void) {
+    char *line = NULL;
+    size_t cap = 0;
+    while (getline(&line, &cap, stdin) > 0) {
+        split(line);
+        if (ntok == 0) { printf("\n"); fflush(stdout); continue; }
+        if (!strcmp(tok[0], "bloom-check")) bloom_check();
+        else if (!strcmp(tok[0], "cbloom-check")) cbloom_check();
+        else if (!strcmp(tok[0], "cms-check")) cms_check();
+        else if (!strcmp(tok[0], "expanding-check")) expanding_check();
+        else if (!strcmp(tok[0], "cuckoo-check")) cuckoo_check();
+        else if (!strcmp(tok[0], "bloom-write")) bloom_write();
+        else if (!strcmp(tok[0], "cbloom-write")) cbloom_write();
+        else if (!strcmp(tok[0], "cms-write")) cms_write();
+        else if (!strcmp(tok[0], "expanding-write")) expanding_write();
+        else if (!strcmp(tok[0], "cuckoo-write")) cuckoo_write();
+        else if (!strcmp(tok[0], "fnv")) fnv_cmd();
+        else printf("ERR unknown command\n");
+        fflush(stdout);
+    }
+    free(line);
+    return 0;
+}
